@@ -440,6 +440,126 @@ Proof.
       cbn [process_sources select_spec_from SelectSpec.select_spec_from]. reflexivity.
 Qed.
 
+(* ---------------------------------------------------------------- a pass that parks has scanned
+   every receive source to the end of the mailbox (sys premise park_honest, first clause) *)
+Lemma scan_mailbox_end r c t s s' :
+  r < length (ss_cursors s) ->
+  cur_get r (ss_cursors s) <= length mb ->
+  cur_get r (ss_cursors s0) <= cur_get r (ss_cursors s) ->
+  scan_mailbox r c t s0 s mb = RContinue s' ->
+  cur_get r (ss_cursors s') = length mb /\
+  forall r', r <> r' -> cur_get r' (ss_cursors s') = cur_get r' (ss_cursors s).
+Proof.
+  intros Hr Hle Hmono H. unfold scan_mailbox in H.
+  set (cur := cur_get r (ss_cursors s)) in *.
+  destruct (scan c (skipn cur mb) cur cur) as [idx m|c'] eqn:Escan.
+  - destruct t; [discriminate|]. destruct (Nat.ltb r (length (ss_cursors s))); discriminate.
+  - apply scan_notfound in Escan. destruct Escan as (_ & Hc').
+    assert (Hc : c' = length mb).
+    { rewrite Hc'. destruct (skipn cur mb) as [|a l] eqn:Esk.
+      - assert (length mb <= cur) by (apply skipn_nil_iff; exact Esk). lia.
+      - assert (Hl : length (skipn cur mb) = length mb - cur) by apply skipn_length.
+        rewrite Esk in Hl. cbn [length] in Hl |- *. lia. }
+    destruct (Nat.ltb (cur_get r (ss_cursors s0)) c') eqn:Elt.
+    + apply Nat.ltb_lt in Hr. rewrite Hr in H. inversion H; subst s'. apply Nat.ltb_lt in Hr.
+      unfold with_cursors; cbn [ss_cursors]. split.
+      * rewrite cur_get_set_eq by exact Hr. exact Hc.
+      * intros r' Hne. apply cur_get_set_neq. exact Hne.
+    + inversion H; subst s'. apply Nat.ltb_ge in Elt. split; [lia|reflexivity].
+Qed.
+
+Lemma handle_select_receive_end r c t s s' :
+  nth_recv written r = Some (c, t) ->
+  live_ok r s ->
+  handle_select_receive r c t rr s0 s mb = RContinue s' ->
+  cur_get r (ss_cursors s') = length mb /\
+  forall r', r <> r' -> cur_get r' (ss_cursors s') = cur_get r' (ss_cursors s).
+Proof.
+  intros Hsrc [Hlen Hagree Hsk Hrinv Hcle Hlr] H.
+  pose proof (nth_recv_lt _ _ _ Hsrc) as Hrlt.
+  assert (Hplain : scan_mailbox r c t s0 s mb = RContinue s' ->
+                   cur_get r (ss_cursors s') = length mb /\
+                   forall r', r <> r' -> cur_get r' (ss_cursors s') = cur_get r' (ss_cursors s)).
+  { apply scan_mailbox_end; [lia|apply Hcle|]. rewrite Hagree by lia. lia. }
+  unfold handle_select_receive in H.
+  destruct (ss_receiving s0) as [[idx m0]|] eqn:Ercv0; [|auto].
+  destruct (Nat.eqb idx r) eqn:Eidx; [|auto].
+  apply Nat.eqb_eq in Eidx. subst idx.
+  destruct rr as [[n|]|]; try discriminate.
+  destruct (Nat.ltb r (length (ss_cursors s))) eqn:El; [|discriminate].
+  destruct Hlr as [(He & _)|(_ & Hlt)]; [|specialize (Hlt _ _ eq_refl); lia].
+  rewrite He in Hrinv. cbn in Hrinv. destruct Hrinv as (c0 & _ & _ & Hnth).
+  assert (Hcur : cur_get r (ss_cursors s) < length mb) by (apply nth_error_Some; congruence).
+  apply scan_mailbox_end in H.
+  - unfold with_receiving, with_cursors in H; cbn [ss_cursors] in H. destruct H as (H1 & H2). split; auto.
+    intros r' Hne. rewrite (H2 r' Hne). apply cur_get_set_neq. exact Hne.
+  - unfold with_receiving, with_cursors; cbn [ss_cursors]. rewrite length_set_nth. lia.
+  - unfold with_receiving, with_cursors; cbn [ss_cursors]. rewrite cur_get_set_eq by lia. lia.
+  - unfold with_receiving, with_cursors; cbn [ss_cursors]. rewrite cur_get_set_eq by lia.
+    rewrite <- (Hagree r) by lia. lia.
+Qed.
+
+Lemma process_sources_end start now aw : forall suf r s s',
+  (forall k, nth_recv written (r + k) = nth_recv suf k) ->
+  live_ok r s ->
+  (forall r', r' < r -> cur_get r' (ss_cursors s) = length mb) ->
+  process_sources s0 rr start now aw suf r s mb = SPark s' ->
+  forall r', r' < r + count_recv suf -> cur_get r' (ss_cursors s') = length mb.
+Proof.
+  induction suf as [|src rest IH]; intros r s s' Hsuf Hlive Hdone H.
+  - cbn in H. inversion H; subst s'. unfold count_recv; cbn. intros r' Hr'. apply Hdone. lia.
+  - destruct src as [p|c t|d|e]; cbn [process_sources] in H.
+    + assert (Hc : count_recv (SrcProc p :: rest) = count_recv rest) by reflexivity. rewrite Hc.
+      destruct (aw_get p aw) as [[v|]|]; try discriminate; eapply IH; eauto.
+    + assert (Hsrc : nth_recv written r = Some (c, t)).
+      { specialize (Hsuf 0). rewrite Nat.add_0_r in Hsuf. exact Hsuf. }
+      pose proof (handle_select_receive_ok r c t s Hsrc Hlive) as Hok.
+      pose proof (handle_select_receive_end r c t s) as Hend.
+      destruct (handle_select_receive r c t rr s0 s mb) as [v mb'|s1|s1|e s1|n]; try discriminate.
+      destruct Hok as (_ & _ & Hlive1).
+      destruct (Hend s1 Hsrc Hlive eq_refl) as (E1 & E2).
+      assert (Hc : count_recv (SrcRecv c t :: rest) = S (count_recv rest)) by reflexivity. rewrite Hc.
+      intros r' Hr'. replace (r + S (count_recv rest)) with (S r + count_recv rest) in Hr' by lia.
+      eapply (IH (S r) s1 s'); eauto.
+      * intros k. specialize (Hsuf (S k)). rewrite Nat.add_succ_r in Hsuf. exact Hsuf.
+      * intros r2 Hr2. destruct (Nat.eq_dec r r2) as [<-|Hne]; [exact E1|].
+        rewrite (E2 r2 Hne). apply Hdone. lia.
+    + assert (Hc : count_recv (SrcTimeout d :: rest) = count_recv rest) by reflexivity. rewrite Hc.
+      destruct (timeout_ready d start now); try discriminate. eapply IH; eauto.
+    + discriminate.
+Qed.
+
+(* ... and no timeout source was due at the clock of that pass (sys premise time_honest, for the
+   slice that parks) *)
+Lemma process_sources_park_timeouts start now aw : forall suf r s s',
+  process_sources s0 rr start now aw suf r s mb = SPark s' ->
+  forall d, In (SrcTimeout d) suf -> timeout_ready d start now = false.
+Proof.
+  induction suf as [|src rest IH]; intros r s s' H d Hin; [destruct Hin|].
+  destruct src as [p|c t|d0|e]; cbn [process_sources] in H.
+  - destruct Hin as [Hd|Hin]; [discriminate|]. destruct (aw_get p aw) as [[v|]|]; try discriminate; eapply IH; eauto.
+  - destruct Hin as [Hd|Hin]; [discriminate|].
+    destruct (handle_select_receive r c t rr s0 s mb); try discriminate. eapply IH; eauto.
+  - destruct (timeout_ready d0 start now) eqn:E; try discriminate.
+    destruct Hin as [Hd|Hin]; [inversion Hd; subst; exact E|eapply IH; eauto].
+  - discriminate.
+Qed.
+
+(* ... and no awaited process source had its result delivered *)
+Lemma process_sources_park_procs start now aw : forall suf r s s',
+  process_sources s0 rr start now aw suf r s mb = SPark s' ->
+  forall p, In (SrcProc p) suf -> forall v, aw_get p aw <> Some (Some v).
+Proof.
+  induction suf as [|src rest IH]; intros r s s' H p Hin v; [destruct Hin|].
+  destruct src as [p0|c t|d0|e]; cbn [process_sources] in H.
+  - destruct (aw_get p0 aw) as [[v0|]|] eqn:E; try discriminate;
+      (destruct Hin as [Hd|Hin]; [inversion Hd; subst; rewrite E; discriminate|eapply IH; eauto]).
+  - destruct Hin as [Hd|Hin]; [discriminate|].
+    destruct (handle_select_receive r c t rr s0 s mb); try discriminate. eapply IH; eauto.
+  - destruct Hin as [Hd|Hin]; [discriminate|]. destruct (timeout_ready d0 start now); try discriminate. eapply IH; eauto.
+  - discriminate.
+Qed.
+
 End OneEntry.
 (* ---------------------------------------------------------------- one entry (Executor::step) *)
 Notation step := (step fix45 verdict_of written).
@@ -543,6 +663,90 @@ Proof.
   - destruct (ss_receiving s) as [[r0 m0]|]; cbn in *; auto.
     destruct H4 as (c & A & B & C). exists c. repeat split; auto. apply nth_error_app_some. exact C.
   - intros r. rewrite app_length. specialize (H5 r). lia.
+Qed.
+
+(* ---------------------------------------------------------------- what a parking pass has established *)
+Definition all_at_end (s : sel_state) (mb : list msg) : Prop :=
+  Forall (fun c => c = length mb) (ss_cursors s).
+
+Lemma pass_park s mb aw now s' :
+  sel_inv s mb ->
+  (forall r m e, ss_receiving s = Some (r, m) -> verdict_of r m <> VdErr e) ->
+  let rr := match ss_receiving s with Some (r, m) => rr_of (verdict_of r m) | None => None end in
+  let s1 := with_start s (Some (start_of s now)) in
+  process_sources s1 rr (start_of s now) now aw (ss_sources s1) 0 s1 mb = SPark s' ->
+  sel_inv s' mb /\ ss_start s' = Some (start_of s now) /\ all_at_end s' mb /\
+  (forall d, In (SrcTimeout d) written -> timeout_ready d (start_of s now) now = false) /\
+  (forall p v, In (SrcProc p) written -> aw_get p aw <> Some (Some v)).
+Proof.
+  intros (Hsrc & Hlen & Hsk & Hrinv & Hcle) Hnoerr rr s1 Hpark.
+  assert (Hrr : match ss_receiving s1 with
+                | Some (r0, m0) => (forall e, verdict_of r0 m0 <> VdErr e) /\ rr = rr_of (verdict_of r0 m0)
+                | None => rr = None
+                end).
+  { unfold s1, rr, with_start; cbn [ss_receiving].
+    destruct (ss_receiving s) as [[r0 m0]|] eqn:E; auto. }
+  assert (Hlive : live_ok s1 mb 0 s1).
+  { constructor; auto. left. split; auto. intros; lia. }
+  assert (Hsrc1 : ss_sources s1 = written) by exact Hsrc.
+  rewrite Hsrc1 in Hpark.
+  pose proof (process_sources_ok s1 rr mb Hrr (start_of s now) now aw written 0 s1 nth_recv_written0 Hlive) as Hok.
+  pose proof (process_sources_end s1 rr mb Hrr (start_of s now) now aw written 0 s1 s' nth_recv_written0 Hlive
+                ltac:(intros; lia) Hpark) as Hend.
+  pose proof (process_sources_park_timeouts s1 rr mb (start_of s now) now aw written 0 s1 s' Hpark) as Htm.
+  pose proof (process_sources_park_procs s1 rr mb (start_of s now) now aw written 0 s1 s' Hpark) as Hpr.
+  rewrite Hpark in Hok. destruct Hok as (_ & (G1 & G2 & G3 & G4 & G5 & G6)).
+  split; [unfold sel_inv; repeat split; auto; congruence|].
+  split; [rewrite G2; reflexivity|].
+  split; [|split; auto].
+  unfold all_at_end. apply Forall_nth. intros i d Hi.
+  rewrite (nth_indep _ d 0 Hi). apply (Hend i). rewrite Nat.add_0_l. rewrite <- G3. exact Hi.
+Qed.
+
+(* a step that parks a runnable, live process inside its select *)
+Lemma park_entry now st st' s :
+  Inv st -> active now st s -> step now st = Val st' -> p_queued st' = false -> p_error st' = None ->
+  exists s', p_sel st' = Some s' /\ p_selecting st' = true /\
+    p_mailbox st' = p_mailbox st /\ p_awaiting st' = p_awaiting st /\
+    sel_inv s' (p_mailbox st) /\ ss_start s' = Some (start_of s now) /\ all_at_end s' (p_mailbox st) /\
+    (forall d, In (SrcTimeout d) written -> timeout_ready d (start_of s now) now = false) /\
+    (forall p v, In (SrcProc p) written -> aw_get p (p_awaiting st) <> Some (Some v)).
+Proof.
+  intros HI (Hq & Herr & Hval & Hsel) Hstep Hq' He'.
+  destruct (check_expired_fields now st) as (Fmb & Faw & Fsel & Fval & Ferr).
+  assert (Hinv : sel_inv s (p_mailbox st)) by (apply HI; auto).
+  assert (Hne : forall r m e, ss_receiving s = Some (r, m) -> verdict_of r m <> VdErr e).
+  { intros r m e Hr Hvd. unfold Select.step in Hstep.
+    rewrite Hq, Ferr, Herr, Fval, Hval, Fsel, Hsel, Hr, Hvd in Hstep. cbn [negb] in Hstep.
+    inversion Hstep; subst. cbn in He'. discriminate. }
+  pose proof (pass_park s (p_mailbox st) (p_awaiting st) now) as HP. cbv zeta in HP.
+  unfold Select.step in Hstep. rewrite Hq, Ferr, Herr, Fval, Hval, Fsel, Hsel in Hstep. cbn [negb] in Hstep.
+  rewrite Fmb, Faw in Hstep.
+  assert (Hgo : forall rr,
+            rr = match ss_receiving s with Some (r, m) => rr_of (verdict_of r m) | None => None end ->
+            match process_sources (with_start s (Some (start_of s now))) rr (start_of s now) now (p_awaiting st)
+                    (ss_sources (with_start s (Some (start_of s now)))) 0 (with_start s (Some (start_of s now))) (p_mailbox st) with
+            | SComplete v mb => Val (complete_select fix45 (check_expired now st) (ss_sources (with_start s (Some (start_of s now)))) v mb)
+            | SCalled s' => Val (set_sel (check_expired now st) (Some s'))
+            | SPark s' => Val (set_flags (set_sel (check_expired now st) (Some s')) false true)
+            | SError e s' => Val (set_flags (set_error (set_sel (check_expired now st) (Some s')) (PErr e)) false (p_selecting (check_expired now st)))
+            | SPanic n => Panic n
+            end = Val st' ->
+            exists s', p_sel st' = Some s' /\ p_selecting st' = true /\
+              p_mailbox st' = p_mailbox st /\ p_awaiting st' = p_awaiting st /\
+              sel_inv s' (p_mailbox st) /\ ss_start s' = Some (start_of s now) /\ all_at_end s' (p_mailbox st) /\
+              (forall d, In (SrcTimeout d) written -> timeout_ready d (start_of s now) now = false) /\
+              (forall p v, In (SrcProc p) written -> aw_get p (p_awaiting st) <> Some (Some v))).
+  { clear Hstep. intros rr Hrr Hs. subst rr.
+    destruct (process_sources _ _ _ _ _ _ _ _ _) as [v mb'|s'|s'|e s'|n'] eqn:Eps;
+      inversion Hs; subst; cbn in Hq', He'; try congruence; try discriminate.
+    destruct (HP s' Hinv Hne eq_refl) as (A & B & C & D & E).
+    exists s'. cbn. rewrite Fmb, Faw. repeat split; auto; apply A. }
+  destruct (ss_receiving s) as [[r0 m0]|] eqn:Ercv.
+  - destruct (verdict_of r0 m0) as [n| |e] eqn:Evd; [| |exfalso; eapply Hne; eauto].
+    + apply (Hgo (Some (Some n))); [reflexivity|]. unfold start_of. exact Hstep.
+    + apply (Hgo (Some None)); [reflexivity|]. unfold start_of. exact Hstep.
+  - apply (Hgo None); [reflexivity|]. unfold start_of. exact Hstep.
 Qed.
 
 (* An active entry whose popped verdict (if any) is not an error does exactly one of four things,
@@ -826,6 +1030,159 @@ Qed.
 
 Theorem machine_never_panics mb0 aw0 evs : exists st, run evs (initial mb0 aw0) = Val st.
 Proof. destruct (run_total evs (initial mb0 aw0) (Inv_initial mb0 aw0)) as (st & H & _). eauto. Qed.
+
+(* ---------------------------------------------------------------- the premises of the protocol cone
+   (sys/ProtoParked.v park_honest / time_honest, sys/ProtoAwait.v await_honest) as theorems *)
+Notation step_action := (step_action written).
+
+(* the entry executes instructions of a live process that is still before / inside its select *)
+Definition runs (now : Z) (st : proc) : Prop :=
+  p_queued (check_expired now st) = true /\ p_error st = None /\ p_value st = None.
+
+Lemma active_runs now st s : active now st s -> runs now st.
+Proof. intros (A & B & C & _). repeat split; auto. Qed.
+
+(* park_honest, first clause: an entry parks only after it has scanned the whole mailbox with
+   every receive source: every cursor is at the end of the mailbox, the sources have been
+   evaluated (start time set) *)
+Theorem parks_only_after_full_scan mb0 aw0 evs st now st' s :
+  run evs (initial mb0 aw0) = Val st ->
+  step now st = Val st' -> active now st s -> p_queued st' = false -> p_error st' = None ->
+  exists s', p_sel st' = Some s' /\ p_selecting st' = true /\ ss_start s' <> None /\
+             Forall (fun c => c = length (p_mailbox st')) (ss_cursors s').
+Proof.
+  intros Hrun Hstep Hact Hq' He'.
+  destruct (run_total evs (initial mb0 aw0) (Inv_initial mb0 aw0)) as (st1 & Hrun' & HI).
+  rewrite Hrun in Hrun'. inversion Hrun'; subst st1.
+  destruct (park_entry now st st' s HI Hact Hstep Hq' He') as (s' & A & B & C & D & E & F & G & _).
+  exists s'. rewrite C. repeat split; auto. rewrite F. discriminate.
+Qed.
+
+(* ... so it never parks with an unseen matching message: no message of the mailbox is acceptable
+   to any receive source (type-compatible and, for a filter source, not rejected) *)
+Theorem never_parks_with_acceptable_message mb0 aw0 evs st now st' s :
+  run evs (initial mb0 aw0) = Val st ->
+  step now st = Val st' -> active now st s -> p_queued st' = false -> p_error st' = None ->
+  forall r c t, nth_recv written r = Some (c, t) ->
+  forall m, In m (p_mailbox st') -> compat c m = false \/ (t = false /\ verdict_of r m = VdNil).
+Proof.
+  intros Hrun Hstep Hact Hq' He' r c t Hsrc m Hin.
+  destruct (run_total evs (initial mb0 aw0) (Inv_initial mb0 aw0)) as (st1 & Hrun' & HI).
+  rewrite Hrun in Hrun'. inversion Hrun'; subst st1.
+  destruct (park_entry now st st' s HI Hact Hstep Hq' He') as (s' & A & B & C & D & E & F & G & _).
+  rewrite C in Hin. apply In_nth_error in Hin. destruct Hin as (j & Hj).
+  destruct E as (_ & Hlen & Hsk & _).
+  assert (Hcur : cur_get r (ss_cursors s') = length (p_mailbox st)).
+  { unfold all_at_end in G. rewrite Forall_nth in G. apply G.
+    rewrite Hlen. eapply nth_recv_lt; eauto. }
+  assert (Hjl : j < length (p_mailbox st)) by (apply nth_error_Some; congruence).
+  specialize (Hsk r c t Hsrc j m ltac:(lia) Hj). unfold SelectSpec.accepts in Hsk.
+  destruct (compat c m); auto. destruct t; [discriminate|]. auto.
+Qed.
+
+(* park_honest, second clause: the slice that returns Action::Await is the initialising entry; it
+   has not started evaluating its sources (start time unset), it parks, and its targets are the
+   process sources in written order *)
+Theorem await_slice_has_not_started now st st' ts :
+  step_action now st = Some ts -> step now st = Val st' ->
+  ts = pids_of written /\ ts <> [] /\ p_queued st' = false /\ p_selecting st' = true /\
+  exists s', p_sel st' = Some s' /\ ss_start s' = None /\ ss_sources s' = written /\
+             ss_receiving s' = None /\
+             p_awaiting st' = fold_left (fun aw p => aw_insert p None aw) ts (p_awaiting st).
+Proof.
+  intros Ha Hstep.
+  destruct (check_expired_fields now st) as (Fmb & Faw & Fsel & Fval & Ferr).
+  unfold Select.step_action in Ha. unfold Select.step in Hstep.
+  destruct (negb (p_queued (check_expired now st))); [discriminate|].
+  destruct (p_error (check_expired now st)); [discriminate|].
+  destruct (p_value (check_expired now st)); [discriminate|].
+  destruct (p_sel (check_expired now st)); [discriminate|].
+  inversion Hstep; subst st'. unfold initialize_select.
+  destruct (pids_of written) as [|q qs] eqn:Ep; [discriminate|].
+  inversion Ha; subst ts. cbn. rewrite Faw.
+  repeat split; auto; try discriminate.
+  eexists. repeat split.
+Qed.
+
+(* no Action is returned by any other entry *)
+Lemma step_action_only_at_init now st ts :
+  step_action now st = Some ts -> runs now st /\ p_sel st = None.
+Proof.
+  intros Ha. destruct (check_expired_fields now st) as (Fmb & Faw & Fsel & Fval & Ferr).
+  unfold Select.step_action in Ha. unfold runs.
+  destruct (p_queued (check_expired now st)); cbn [negb] in Ha; [|discriminate].
+  rewrite Ferr, Fval, Fsel in Ha.
+  destruct (p_error st); [discriminate|]. destruct (p_value st); [discriminate|].
+  destruct (p_sel st); [discriminate|]. auto.
+Qed.
+
+(* time_honest (for the slice that parks): an entry never parks the process with a timeout
+   already due at the clock it checked — whether it parks after a pass over the sources (every
+   timeout source was found not ready against the start time of this select) or by awaiting (the
+   start time is unset: check_expired_timeouts ignores the process) *)
+Theorem never_parks_with_due_timeout mb0 aw0 evs st now st' :
+  run evs (initial mb0 aw0) = Val st ->
+  step now st = Val st' -> runs now st -> p_queued st' = false -> p_error st' = None ->
+  forall s', p_sel st' = Some s' -> expired s' now = false.
+Proof.
+  intros Hrun Hstep (Hq & Herr & Hval) Hq' He' s' Hs'.
+  destruct (run_total evs (initial mb0 aw0) (Inv_initial mb0 aw0)) as (st1 & Hrun' & HI).
+  rewrite Hrun in Hrun'. inversion Hrun'; subst st1.
+  destruct (p_sel st) as [s|] eqn:Hsel.
+  - destruct (park_entry now st st' s HI (conj Hq (conj Herr (conj Hval Hsel))) Hstep Hq' He')
+      as (s2 & A & B & C & D & E & F & G & Htm & _).
+    rewrite A in Hs'. inversion Hs'; subst s2. unfold expired. rewrite F.
+    destruct E as (Hsrc & _). rewrite Hsrc.
+    apply not_true_is_false. intros Hex. apply existsb_exists in Hex. destruct Hex as (src & Hin & Hr).
+    destruct src as [p|c t|d|e]; try discriminate. rewrite (Htm d Hin) in Hr. discriminate.
+  - destruct (check_expired_fields now st) as (Fmb & Faw & Fsel & Fval & Ferr).
+    unfold Select.step in Hstep. rewrite Hq, Ferr, Herr, Fval, Hval, Fsel, Hsel in Hstep. cbn [negb] in Hstep.
+    inversion Hstep; subst st'. unfold initialize_select in Hs', Hq'.
+    destruct (pids_of written) eqn:Ep; cbn in Hs', Hq'; [congruence|].
+    inversion Hs'; subst s'. reflexivity.
+Qed.
+
+(* ... hence the check_expired_timeouts of a later step at the same clock leaves it parked *)
+Corollary parked_not_expired_at_same_clock mb0 aw0 evs st now st' :
+  run evs (initial mb0 aw0) = Val st ->
+  step now st = Val st' -> runs now st -> p_queued st' = false -> p_error st' = None ->
+  check_expired now st' = st'.
+Proof.
+  intros Hrun Hstep Hr Hq' He'. unfold check_expired.
+  destruct (p_sel st') as [s'|] eqn:Hs'; [|rewrite andb_false_r; reflexivity].
+  rewrite (never_parks_with_due_timeout _ _ _ _ _ _ Hrun Hstep Hr Hq' He' s' Hs'), andb_false_r. reflexivity.
+Qed.
+
+(* await_honest (a): no entry is executed for a process whose result is already set (a process
+   completed in place by a failure notification has its frames cleared): the step only takes it
+   off the run queue; it returns no Action and changes nothing else *)
+Theorem dead_process_runs_no_entry now st st' e :
+  p_error st = Some e -> step now st = Val st' ->
+  step_action now st = None /\
+  p_sel st' = p_sel st /\ p_mailbox st' = p_mailbox st /\ p_awaiting st' = p_awaiting st /\
+  p_value st' = p_value st /\ p_error st' = Some e /\ p_queued st' = false.
+Proof.
+  intros He Hstep. destruct (check_expired_fields now st) as (Fmb & Faw & Fsel & Fval & Ferr).
+  unfold Select.step_action. unfold Select.step in Hstep.
+  destruct (p_queued (check_expired now st)) eqn:Hq; cbn [negb] in *.
+  - rewrite Ferr, He in *. inversion Hstep; subst st'. cbn. repeat split; auto.
+  - inversion Hstep; subst st'. repeat split; auto. congruence.
+Qed.
+
+(* the awaiting map only changes where the code changes it: a completing entry *)
+Lemma completing_step_awaiting now st st' v :
+  Inv st -> step now st = Val st' -> p_value st = None -> p_value st' = Some v ->
+  p_awaiting st' = if fix45 then fold_left (fun aw p => aw_remove p aw) (pids_of written) (p_awaiting st)
+                   else p_awaiting st.
+Proof.
+  intros HI Hstep Hv0 Hv1.
+  destruct (completing_is_active now st st' v Hstep Hv0 Hv1) as (s & Hact & Hne).
+  destruct (check_expired_fields now st) as (Fmb & Faw & Fsel & Fval & Ferr).
+  destruct (active_entry now st s HI Hact Hne)
+    as [(v' & mb' & Hspec & Hs)|[(s' & _ & _ & Hs)|[(s' & _ & _ & Hs)|(e & s' & _ & Hs)]]];
+    rewrite Hs in Hstep; inversion Hstep; subst st'; cbn in Hv1; try congruence.
+  cbn. rewrite Faw. reflexivity.
+Qed.
 
 (* ---------------------------------------------------------------- the taken message *)
 Lemma pick_shape r c t : forall mb m rest,
@@ -1269,7 +1626,8 @@ Variable written : list source.
 (* while the select is running only its own targets are awaited; once it is over, nothing is *)
 Definition keys_ok (st : proc) : Prop :=
   (forall s, p_sel st = Some s -> ss_sources s = written) /\
-  forall p, aw_has p (p_awaiting st) = true -> p_value st = None /\ In p (pids_of written).
+  forall p, aw_has p (p_awaiting st) = true ->
+            p_value st = None /\ In p (pids_of written) /\ p_sel st <> None.
 
 Lemma notify_result_keys p v st : keys_ok st -> keys_ok (notify_result true p v st).
 Proof.
@@ -1299,21 +1657,24 @@ Proof.
   destruct (p_sel (check_expired now st)) as [s|] eqn:Hsel.
   - pose proof (Hs1 s eq_refl) as Hsrc.
     destruct (match ss_receiving s with Some (r, m) => Some (verdict_of r m) | None => None end) as [[n| |e]|].
-    3:{ inversion Hstep; subst. unfold keys_ok. cbn. rewrite Hsel. auto. }
+    3:{ inversion Hstep; subst. unfold keys_ok; cbn. rewrite Hsel. split; [exact Hs1|exact Hk1]. }
     all: match type of Hstep with context [process_sources ?a ?b ?c ?d ?e ?f ?g ?h ?i] =>
            pose proof (process_sources_ok_sources a b c d e f g h i) as Hsr;
            destruct (process_sources a b c d e f g h i) end;
          inversion Hstep; subst; unfold keys_ok; cbn.
-    all: try (split; [intros s2 H2; inversion H2; subst; cbn in Hsr; congruence|exact Hk1]).
+    all: try (split; [intros s2 H2; inversion H2; subst; cbn in Hsr; congruence|
+                      intros p Hp; destruct (Hk1 p Hp) as (A & B & C); repeat split; auto; discriminate]).
     all: try (split; [intros s2 H2; discriminate H2|]; intros p Hp; exfalso;
               apply aw_has_fold_remove in Hp; destruct Hp as (Hn & Hp);
               apply Hn; rewrite Hsrc; apply (Hk1 p Hp)).
   - inversion Hstep; subst. unfold initialize_select.
     destruct (pids_of written) as [|q qs] eqn:Ep; unfold keys_ok; cbn.
-    + split; [intros s2 H2; inversion H2; reflexivity|]. intros p Hp. specialize (Hk1 p Hp). rewrite ?Ep. exact Hk1.
-    + split; [intros s2 H2; inversion H2; reflexivity|]. intros p Hp. split; auto.
-      apply (aw_has_fold_insert p (q :: qs)) in Hp. rewrite ?Ep. destruct Hp as [Hp|Hp]; auto.
-      specialize (Hk1 p Hp). apply Hk1.
+    + split; [intros s2 H2; inversion H2; reflexivity|]. intros p Hp.
+      destruct (Hk1 p Hp) as (A & B & C). rewrite ?Ep. repeat split; auto; discriminate.
+    + split; [intros s2 H2; inversion H2; reflexivity|]. intros p Hp.
+      apply (aw_has_fold_insert p (q :: qs)) in Hp. rewrite ?Ep. destruct Hp as [Hp|Hp].
+      * repeat split; auto; discriminate.
+      * destruct (Hk1 p Hp) as (A & B & C). rewrite ?Ep in B. repeat split; auto; discriminate.
 Qed.
 
 Lemma apply_event_keys ev st st' :
@@ -1361,3 +1722,130 @@ Qed.
 (* the clamp is invisible for every duration that fits an i64 *)
 Lemma eff_timeout_in_range d : in_i64 d = true -> eff_timeout d = Z.max d 0.
 Proof. unfold eff_timeout, to_i64_or_max. intros ->. reflexivity. Qed.
+
+(* ---------------------------------------------------------------- await_honest (b), with the code
+   as it is since 09625d4 (fix45 = true): what a process awaits *)
+
+(* awaiting_keys_subset_of_current_sources (invariant over all histories of a process that started
+   with no awaited key): every key of `awaiting` is a process source of the CURRENT select — the
+   select exists, it has not completed, its source list is the written one *)
+Theorem awaiting_keys_subset_of_current_sources verdict written evs mb st :
+  run true verdict written evs (initial mb []) = Val st ->
+  forall p, aw_has p (p_awaiting st) = true ->
+    p_value st = None /\ In (SrcProc p) written /\
+    exists s, p_sel st = Some s /\ ss_sources s = written.
+Proof.
+  intros Hrun p Hp.
+  assert (HK : keys_ok written st).
+  { eapply run_keys; eauto. split; [intros s H; discriminate H|]. intros q Hq. discriminate Hq. }
+  destruct HK as (Hs & HK). destruct (HK p Hp) as (A & B & C).
+  split; auto. split.
+  - clear -B. induction written as [|[q|c t|d|e] rest IH]; cbn in B |- *; auto.
+    destruct B as [->|B]; auto.
+  - destruct (p_sel st) as [s|] eqn:E; [|contradiction]. exists s. auto.
+Qed.
+
+(* complete_select_clears_process_sources: the entry that completes the select removes every
+   process source of that select from `awaiting` (complete_select, executor.rs ~2671-2681) — from
+   ANY initial awaiting map *)
+Theorem complete_select_clears_process_sources verdict written evs mb aw0 st now st' v :
+  run true verdict written evs (initial mb aw0) = Val st ->
+  step true verdict written now st = Val st' -> p_value st = None -> p_value st' = Some v ->
+  forall p, In (SrcProc p) written -> aw_has p (p_awaiting st') = false.
+Proof.
+  intros Hrun Hstep Hv0 Hv1 p Hin.
+  destruct (run_total true verdict written evs (initial mb aw0) (Inv_initial verdict written mb aw0)) as (st1 & Hrun' & HI).
+  rewrite Hrun in Hrun'. inversion Hrun'; subst st1.
+  rewrite (completing_step_awaiting true verdict written now st st' v HI Hstep Hv0 Hv1).
+  destruct (aw_has p (fold_left (fun aw q => aw_remove q aw) (pids_of written) (p_awaiting st))) eqn:E; auto.
+  apply aw_has_fold_remove in E. destruct E as (Hn & _). exfalso. apply Hn.
+  clear -Hin. induction written as [|[q|c t|d|e] rest IH]; cbn in Hin |- *; try (destruct Hin as [Hd|Hin]; [discriminate|auto]); try contradiction.
+  destruct Hin as [Hd|Hin]; [inversion Hd; left; auto|right; auto].
+Qed.
+
+(* ... so that a process that started with no awaited key awaits nothing once its select is over:
+   the next select starts from an empty awaiting map again (a process blocks in one select at a
+   time) *)
+Theorem completed_select_awaits_nothing verdict written evs mb st :
+  run true verdict written evs (initial mb []) = Val st ->
+  p_value st <> None -> forall p, aw_has p (p_awaiting st) = false.
+Proof.
+  intros Hrun Hv p. destruct (aw_has p (p_awaiting st)) eqn:E; auto.
+  destruct (awaiting_keys_subset_of_current_sources _ _ _ _ _ Hrun p E) as (A & _). contradiction.
+Qed.
+
+(* await_honest (b): when a slice ends with Action::Await on targets ts, every key that remains in
+   `awaiting` is one of ts *)
+Theorem await_slice_leaves_only_its_targets verdict written evs mb st now st' ts :
+  run true verdict written evs (initial mb []) = Val st ->
+  step_action written now st = Some ts -> step true verdict written now st = Val st' ->
+  forall p, aw_has p (p_awaiting st') = true -> In p ts.
+Proof.
+  intros Hrun Ha Hstep p Hp.
+  destruct (await_slice_has_not_started true verdict written now st st' ts Ha Hstep) as (-> & _).
+  assert (HK : keys_ok written st').
+  { eapply step_keys; eauto. eapply run_keys; eauto.
+    split; [intros s H; discriminate H|]. intros q Hq. discriminate Hq. }
+  destruct HK as (_ & HK). apply (HK p Hp).
+Qed.
+
+(* ---------------------------------------------------------------- non-vacuity of the premise theorems *)
+(* ex2 (`! [#'int, 5]`, mailbox [a 'bin message]): the second entry at clock 10 parks *)
+Definition ex2_pre : proc :=
+  Eval vm_compute in
+    match run true no_verdict ex2_written [EStep 10%Z] (initial [(7, 1)] []) with Val st => st | _ => initial [] [] end.
+Definition ex2_parked : proc :=
+  Eval vm_compute in match step true no_verdict ex2_written 10%Z ex2_pre with Val st => st | _ => initial [] [] end.
+
+Example ex_parks_after_full_scan :
+  run true no_verdict ex2_written [EStep 10%Z] (initial [(7, 1)] []) = Val ex2_pre /\
+  (exists s, active 10%Z ex2_pre s) /\
+  step true no_verdict ex2_written 10%Z ex2_pre = Val ex2_parked /\
+  p_queued ex2_parked = false /\ p_selecting ex2_parked = true /\ p_error ex2_parked = None /\
+  (exists s', p_sel ex2_parked = Some s' /\ ss_cursors s' = [1] /\ ss_start s' = Some 10%Z /\
+              length (p_mailbox ex2_parked) = 1 /\ expired s' 10%Z = false /\ expired s' 15%Z = true).
+Proof.
+  split; [vm_compute; reflexivity|]. split; [eexists; repeat split|].
+  split; [vm_compute; reflexivity|]. repeat split. eexists. repeat split.
+Qed.
+
+(* `! [p0, 0]`: the first entry returns Action::Await [0], parks with the start time unset and
+   awaits exactly p0; the select completes by its timeout and forgets p0 *)
+Definition f45_init : proc :=
+  Eval vm_compute in match step true no_verdict f45_written 0%Z (initial [] []) with Val st => st | _ => initial [] [] end.
+
+Example ex_await_slice :
+  step_action f45_written 0%Z (initial [] []) = Some [0] /\
+  step true no_verdict f45_written 0%Z (initial [] []) = Val f45_init /\
+  p_awaiting f45_init = [(0, None)] /\ p_selecting f45_init = true /\
+  (exists s, p_sel f45_init = Some s /\ ss_start s = None) /\
+  run true no_verdict f45_written [EActive; EStep 0%Z] f45_init = Val f45_state_fixed /\
+  p_value f45_state_fixed = Some VNil /\ p_awaiting f45_state_fixed = [].
+Proof.
+  split; [reflexivity|]. split; [vm_compute; reflexivity|]. repeat split.
+  all: try (eexists; split; reflexivity).
+  all: try (vm_compute; reflexivity).
+Qed.
+
+(* a process completed in place by a failure: the next step executes no entry *)
+Example ex_dead_process :
+  exists st st',
+    run true no_verdict f45_written [EStep 0%Z; EFail 0; EActive] (initial [] []) = Val st /\
+    p_error st = Some (PAwaited 0) /\ p_queued st = true /\
+    step true no_verdict f45_written 1%Z st = Val st' /\ step_action f45_written 1%Z st = None /\
+    p_queued st' = false /\ p_sel st' = p_sel st.
+Proof.
+  eexists. eexists. split; [vm_compute; reflexivity|]. split; [reflexivity|]. split; [reflexivity|].
+  split; [vm_compute; reflexivity|]. repeat split.
+Qed.
+
+(* The premise holds of the slice that PARKS.  A slice that ends runnable may well end with a
+   timeout that is already due (it fires at the next entry): `! [0]`, quantum 1 — the initialising
+   entry sets the start time to the current clock and the slice ends before the first pass.  An
+   unconditional reading of time_honest ("no slice ends with a due timeout") is false of the machine
+   and of the real executor alike. *)
+Example ex_runnable_slice_may_end_with_due_timeout :
+  exists st', step true no_verdict [SrcTimeout 0%Z] 7%Z (initial [] []) = Val st' /\
+              p_queued st' = true /\ p_selecting st' = false /\
+              exists s', p_sel st' = Some s' /\ ss_start s' = Some 7%Z /\ expired s' 7%Z = true.
+Proof. eexists. split; [vm_compute; reflexivity|]. repeat split. eexists. repeat split. Qed.
